@@ -151,6 +151,10 @@ pub fn runtime() -> Runtime<NoCtx> {
         fn emit_len(v: u64) { log(format!("n:{v}")) }
         /// fill the unused stack with one byte value (see `paint`)
         fn paint_stack(v: u8) { paint(v) }
+        /// returns its first argument (call arguments are evaluated left to right)
+        fn first_u32(a: u32, b: u8) -> u32 { let _ = b; a }
+        /// returns its first argument
+        fn first_str(a: RotoString, b: u8) -> RotoString { let _ = b; a }
         /// measure (side channel): do the two element buffers hold the same bytes?
         fn note_ou32(a: List<Option<u32>>, b: List<Option<u32>>) { note_bytes(&a, &b) }
         /// measure (side channel)
@@ -238,6 +242,31 @@ pub enum E {
     /// `stale_k(l)`: the one-element list `[l.get(l.len())]` = `[None]`, read
     /// through a result variable that held `Some(l[i])` on the iterations before
     StaleNone(usize, Box<E>),
+    /// `{ s1; …; e }`: a block expression whose statements WRITE to variables
+    /// of the enclosing scope (assign a variable / a field path, compound
+    /// assignment, push), then its value. As a later component of a
+    /// constructor it changes what an earlier component's expression names —
+    /// the earlier component must hold the value from before
+    Seq(Vec<S>, Box<E>),
+    /// record literal with its initialisers in an explicit source order:
+    /// (declared position, field name, initialiser) in the order written
+    RecO(Option<String>, Vec<(usize, String, E)>),
+    /// `<fn>(a, b)`: a function (Roto helper or host function) that returns
+    /// its first argument; both arguments are evaluated, left to right
+    First(String, Box<E>, Box<E>),
+}
+
+/// the order in which the printer writes the initialisers of `E::Rec` (they
+/// are matched by name, and EVALUATED in the order written): position k of
+/// the result = declared index of the k-th initialiser in the source
+pub fn rec_order(declared_record: bool, n: usize) -> Vec<usize> {
+    let mut o: Vec<usize> = (0..n).collect();
+    if declared_record && n % 2 == 0 {
+        o.reverse();
+    } else if declared_record && n >= 3 {
+        o.rotate_left(1);
+    }
+    o
 }
 
 #[derive(Clone, Debug)]
@@ -253,6 +282,9 @@ pub struct Arm {
 pub enum S {
     Let(usize, Option<String>, E),
     Set(usize, Vec<(usize, String)>, E),
+    /// compound assignment `v.path <op>= e` on an integer (`+`, `-`, `*`,
+    /// wrapping at the width of the type) or a string (`+`)
+    CSet(usize, Vec<(usize, String)>, char, T, E),
     Push(E, E),
     Swap(E, u64, u64),
     /// emit every component of the value of `E` (type-directed expansion in
@@ -288,6 +320,8 @@ struct Gen<'a> {
     closed: bool,
     /// … except `main`'s arguments, which the helper receives under the same names
     closed_args: bool,
+    /// inside the body of a `for`: no unconditional push (the loop would never end)
+    in_for: bool,
 }
 
 #[derive(Clone)]
@@ -421,7 +455,11 @@ impl<'a> Gen<'a> {
         if self.closed || !aggregate || depth == 0 || !self.p.chance(1, 6) {
             return self.build0(t, depth);
         }
-        match self.p.below(3) {
+        match self.p.below(4) {
+            3 => {
+                let inner = self.build0(t, depth - 1);
+                self.first_call(t, inner)
+            }
             0 => {
                 let c = if self.p.chance(1, 2) {
                     E::Arg(NARGS - 1)
@@ -550,7 +588,10 @@ impl<'a> Gen<'a> {
             T::Str => E::Str(self.p.pick(&["", "a", "héllo", "xyz", "a longer string value"]).to_string()),
             T::List(e) => {
                 let n = if depth == 0 { 0 } else { self.p.below(4) };
-                E::Lst((0..n).map(|_| self.build(e, depth.saturating_sub(1))).collect())
+                let mut xs: Vec<E> = (0..n).map(|_| self.build(e, depth.saturating_sub(1))).collect();
+                let order: Vec<usize> = (0..xs.len()).collect();
+                self.order_effect(&mut xs, &order, "order:list-literal");
+                E::Lst(xs)
             }
             T::Opt(_) | T::Res(..) | T::Verdict(..) => {
                 let vs = self.variants_of(t).unwrap();
@@ -582,18 +623,115 @@ impl<'a> Gen<'a> {
                     if name.is_empty() {
                         self.kinds.insert("anonymous-literal-as-named-record");
                     }
-                    E::Rec(
-                        Some(name),
-                        fs.iter().map(|(n, ft)| (n.clone(), self.build(ft, depth.saturating_sub(1)))).collect(),
-                    )
+                    let anonymous = name.is_empty();
+                    let mut es: Vec<E> = fs.iter().map(|(_, ft)| self.build(ft, depth.saturating_sub(1))).collect();
+                    // (evaluated in the order the printer writes them)
+                    let order = rec_order(true, es.len());
+                    self.order_effect(&mut es, &order, if anonymous { "order:anonymous-as-named" } else { "order:record-literal" });
+                    E::Rec(Some(name), fs.iter().map(|(n, _)| n.clone()).zip(es).collect())
                 } else {
                     let vs = self.variants_of(t).unwrap();
                     let (c, _, tag, ts) = self.p.pick(&vs).clone();
-                    E::Enm(c, tag, ts.iter().map(|ft| self.build(ft, depth.saturating_sub(1))).collect())
+                    let mut es: Vec<E> = ts.iter().map(|ft| self.build(ft, depth.saturating_sub(1))).collect();
+                    let order: Vec<usize> = (0..es.len()).collect();
+                    self.order_effect(&mut es, &order, "order:enum-constructor");
+                    E::Enm(c, tag, es)
                 }
             }
             _ => unreachable!("type not in the behavioural subset: {t:?}"),
         }
+    }
+
+    /// a statement that WRITES to variable `v`: the whole variable, a field
+    /// path of it, a compound assignment, or a push through it
+    fn write_stmt(&mut self, v: usize) -> Option<S> {
+        if self.vars[v].is_const || !self.vars[v].live {
+            return None;
+        }
+        let mut ps = self.paths(v, 3);
+        if self.vars[v].anon.is_none() {
+            ps.push((vec![], self.vars[v].ty.clone()));
+        }
+        if ps.is_empty() {
+            return None;
+        }
+        let (p, t) = self.p.pick(&ps).clone();
+        match &t {
+            T::Int(..) if self.p.chance(1, 2) => {
+                let op = *self.p.pick(&['+', '-', '*']);
+                let k = 1 + self.p.below(3) as i128;
+                self.kinds.insert("order-compound-assign");
+                Some(S::CSet(v, p, op, t.clone(), E::Lit(k)))
+            }
+            T::Str if self.p.chance(1, 2) => {
+                self.kinds.insert("order-compound-assign");
+                Some(S::CSet(v, p, '+', T::Str, E::Str("+".into())))
+            }
+            T::List(et) if !self.in_for && self.p.chance(1, 2) => {
+                let x = self.build(et, 1);
+                self.kinds.insert("order-push");
+                Some(S::Push(Self::path_expr(v, &p), x))
+            }
+            _ => {
+                let e = self.build(&t, 1);
+                self.kinds.insert(if p.is_empty() { "order-assign-var" } else { "order-assign-field" });
+                Some(S::Set(v, p, e))
+            }
+        }
+    }
+
+    /// Components of a constructor, `es[order[0]], es[order[1]], …` being the
+    /// order of evaluation: sometimes a LATER one becomes a block that first
+    /// writes to a variable (or a component of it) that an EARLIER one reads.
+    /// The earlier component must hold the value from before the write.
+    fn order_effect(&mut self, es: &mut [E], order: &[usize], kind: &'static str) {
+        if self.closed || order.len() < 2 || !self.p.chance(1, 4) {
+            return;
+        }
+        let j = 1 + self.p.below((order.len() - 1) as u64) as usize;
+        let mut read = vec![];
+        for i in 0..j {
+            vars_read(&es[order[i]], &mut read);
+        }
+        read.retain(|v| self.vars[*v].live && !self.vars[*v].is_const);
+        let v = if !read.is_empty() {
+            *self.p.pick(&read)
+        } else {
+            let live: Vec<usize> = self.live_vars().into_iter().filter(|v| !self.vars[*v].is_const).collect();
+            if live.is_empty() || !self.p.chance(1, 3) {
+                return;
+            }
+            *self.p.pick(&live)
+        };
+        let Some(w) = self.write_stmt(v) else { return };
+        let old = std::mem::replace(&mut es[order[j]], E::Unit);
+        es[order[j]] = E::Seq(vec![w], Box::new(old));
+        self.kinds.insert(kind);
+        self.kinds.insert("later-component-writes");
+    }
+
+    /// `first_k(inner, { write; n })`: the arguments of a call are evaluated
+    /// left to right, each one stored before the next
+    fn first_call(&mut self, t: &T, inner: E) -> E {
+        let mut read = vec![];
+        vars_read(&inner, &mut read);
+        read.retain(|v| self.vars[*v].live && !self.vars[*v].is_const);
+        let live: Vec<usize> = self.live_vars().into_iter().filter(|v| !self.vars[*v].is_const).collect();
+        let v = if !read.is_empty() {
+            *self.p.pick(&read)
+        } else if !live.is_empty() {
+            *self.p.pick(&live)
+        } else {
+            return inner;
+        };
+        let Some(w) = self.write_stmt(v) else { return inner };
+        let ts = t.src(&self.env);
+        let k = self.helpers.len();
+        self.helpers.push(format!("fn first_{k}(x: {ts}, y: u8) -> {ts} {{ x }}"));
+        self.kinds.insert("order:call-arguments");
+        self.kinds.insert("later-component-writes");
+        let n = self.p.below(200) as i128;
+        E::First(format!("first_{k}"), Box::new(inner), Box::new(E::Seq(vec![w], Box::new(E::Lit(n)))))
     }
 
     fn pass(&mut self, t: &T, e: E) -> E {
@@ -883,6 +1021,10 @@ impl<'a> Gen<'a> {
                     es.push((name, E::Str("anon".into())));
                 }
             }
+            let (names, mut xs): (Vec<String>, Vec<E>) = es.into_iter().unzip();
+            let order: Vec<usize> = (0..xs.len()).collect();
+            self.order_effect(&mut xs, &order, "order:anonymous-record");
+            let es: Vec<(String, E)> = names.into_iter().zip(xs).collect();
             let w = self.new_var(T::Unit, Some(fs));
             out.push(S::Let(w, None, E::Rec(None, es)));
             self.kinds.insert("anon-record");
@@ -1067,7 +1209,9 @@ impl<'a> Gen<'a> {
             let mut body = self.emit_var(x);
             let same: Vec<usize> = ls.iter().copied().filter(|w| self.vars[*w].ty == self.vars[l].ty).collect();
             let target = *self.p.pick(&same);
+            self.in_for = true;
             let pushed = if self.p.chance(1, 2) { E::Var(x) } else { self.build(&et, 1) };
+            self.in_for = false;
             let bound = 4 + self.p.below(4);
             body.push(S::If(
                 E::Len(Box::new(E::Var(target))),
@@ -1221,13 +1365,45 @@ impl<'a> Gen<'a> {
                     return;
                 }
             }
-            let other = self.build(&t, 2);
+            let mut other = self.build(&t, 2);
+            if self.p.chance(1, 4) {
+                // the left operand is read before the right one writes to it
+                if let Some(w) = self.write_stmt(v) {
+                    other = E::Seq(vec![w], Box::new(other));
+                    self.kinds.insert("order:eq-operands");
+                    self.kinds.insert("later-component-writes");
+                }
+            }
             let neg = self.p.chance(1, 3);
             out.push(S::Emit(E::Eq(neg, Box::new(E::Var(v)), Box::new(other)), T::Bool));
             self.kinds.insert("eq");
         } else {
             out.extend(self.emit_var(v));
         }
+    }
+}
+
+/// the variables an expression reads
+fn vars_read(e: &E, out: &mut Vec<usize>) {
+    match e {
+        E::Var(i) => out.push(*i),
+        E::Fld(b, ..) => vars_read(b, out),
+        E::Rec(_, fs) => fs.iter().for_each(|(_, x)| vars_read(x, out)),
+        E::RecO(_, fs) => fs.iter().for_each(|(_, _, x)| vars_read(x, out)),
+        E::Enm(_, _, fs) | E::Lst(fs) => fs.iter().for_each(|x| vars_read(x, out)),
+        E::Pass(_, x) | E::Host(_, x) | E::PassSet(_, _, _, x) | E::Get(x, _) | E::Try(_, _, x) | E::Len(x) | E::StaleNone(_, x) | E::Seq(_, x) => {
+            vars_read(x, out)
+        }
+        E::If(c, a, b) => {
+            vars_read(c, out);
+            vars_read(a, out);
+            vars_read(b, out);
+        }
+        E::Block(_, _, a, b) | E::Contains(a, b) | E::Index(a, b) | E::Concat(a, b) | E::Eq(_, a, b) | E::First(_, a, b) => {
+            vars_read(a, out);
+            vars_read(b, out);
+        }
+        _ => {}
     }
 }
 
@@ -1328,12 +1504,10 @@ impl Src<'_> {
             E::Rec(name, fs) => {
                 // field initialisers are written in a different order than the
                 // declaration for every other record literal (they are matched by name)
-                let mut parts: Vec<String> = fs.iter().map(|(n, x)| format!("{n}: {}", self.e(x, None))).collect();
-                if name.is_some() && parts.len() % 2 == 0 {
-                    parts.reverse();
-                } else if name.is_some() && parts.len() >= 3 {
-                    parts.rotate_left(1);
-                }
+                let parts: Vec<String> = rec_order(name.is_some(), fs.len())
+                    .into_iter()
+                    .map(|k| format!("{}: {}", fs[k].0, self.e(&fs[k].1, None)))
+                    .collect();
                 let body = parts.join(", ");
                 match name {
                     Some(n) if !n.is_empty() => format!("{n} {{ {body} }}"),
@@ -1366,6 +1540,19 @@ impl Src<'_> {
             E::OpaqueK(src, _, _) => format!("({src})"),
             E::Make(k, _) => format!("make_{k}({})", (0..NARGS).map(|i| format!("p{i}")).collect::<Vec<_>>().join(", ")),
             E::StaleNone(k, l) => format!("stale_{k}({})", self.e(l, None)),
+            E::Seq(ss, x) => {
+                let mut body = String::new();
+                self.block(ss, "", &mut body);
+                format!("{{ {} {} }}", body.replace('\n', " ").trim_end(), self.e(x, None))
+            }
+            E::RecO(name, fs) => {
+                let body = fs.iter().map(|(_, n, x)| format!("{n}: {}", self.e(x, None))).collect::<Vec<_>>().join(", ");
+                match name {
+                    Some(n) if !n.is_empty() => format!("{n} {{ {body} }}"),
+                    _ => format!("{{ {body} }}"),
+                }
+            }
+            E::First(f, a, b) => format!("{f}({}, {})", self.e(a, None), self.e(b, None)),
         }
     }
 
@@ -1457,6 +1644,10 @@ impl Src<'_> {
                     let path: String = p.iter().map(|(_, n)| format!(".{n}")).collect();
                     *out += &format!("{ind}{}{path} = {};\n", vname(*v), self.e(e, None));
                 }
+                S::CSet(v, p, op, _, e) => {
+                    let path: String = p.iter().map(|(_, n)| format!(".{n}")).collect();
+                    *out += &format!("{ind}{}{path} {op}= {};\n", vname(*v), self.e(e, None));
+                }
                 S::Push(l, e) => *out += &format!("{ind}{}.push({});\n", self.e(l, None), self.e(e, None)),
                 S::Swap(l, i, j) => *out += &format!("{ind}{}.swap({i}, {j});\n", self.e(l, None)),
                 S::Paint(v) => *out += &format!("{ind}paint_stack({v});\n"),
@@ -1525,11 +1716,38 @@ fn spec_e(e: &E, args: &Args, out: &mut Vec<String>) {
             out.extend(["F".into(), k.to_string()]);
             spec_e(b, args, out);
         }
-        E::Rec(_, fs) => {
-            out.extend(["R".into(), fs.len().to_string()]);
-            for (_, x) in fs {
+        E::Rec(name, fs) => {
+            // evaluated in the order the printer writes the initialisers
+            let order = rec_order(name.is_some(), fs.len());
+            if order.iter().enumerate().all(|(i, k)| i == *k) {
+                out.extend(["R".into(), fs.len().to_string()]);
+                for (_, x) in fs {
+                    spec_e(x, args, out);
+                }
+            } else {
+                out.extend(["RO".into(), fs.len().to_string()]);
+                for k in order {
+                    out.push(k.to_string());
+                    spec_e(&fs[k].1, args, out);
+                }
+            }
+        }
+        E::RecO(_, fs) => {
+            out.extend(["RO".into(), fs.len().to_string()]);
+            for (k, _, x) in fs {
+                out.push(k.to_string());
                 spec_e(x, args, out);
             }
+        }
+        E::Seq(ss, x) => {
+            out.push("SQ".into());
+            spec_block(ss, args, out);
+            spec_e(x, args, out);
+        }
+        E::First(_, a, b) => {
+            out.push("P1".into());
+            spec_e(a, args, out);
+            spec_e(b, args, out);
         }
         E::Enm(_, tag, fs) => {
             out.extend(["N".into(), tag.to_string(), fs.len().to_string()]);
@@ -1619,6 +1837,27 @@ fn spec_block(ss: &[S], args: &Args, out: &mut Vec<String>) {
                 out.extend(p.iter().map(|(k, _)| k.to_string()));
                 spec_e(e, args, out);
             }
+            S::CSet(v, p, op, t, e) => {
+                // `v.p op= e` is `v.p = v.p op e`
+                out.extend(["set".into(), v.to_string(), p.len().to_string()]);
+                out.extend(p.iter().map(|(k, _)| k.to_string()));
+                match t {
+                    T::Int(sg, bits) => {
+                        let o = match op {
+                            '+' => 0,
+                            '-' => 1,
+                            _ => 2,
+                        };
+                        out.extend(["AR".into(), o.to_string(), (*sg as u8).to_string(), bits.to_string()]);
+                    }
+                    _ => out.push("SC".into()),
+                }
+                for (k, _) in p.iter().rev() {
+                    out.extend(["F".into(), k.to_string()]);
+                }
+                out.extend(["V".into(), v.to_string()]);
+                spec_e(e, args, out);
+            }
             S::Push(l, e) => {
                 out.push("push".into());
                 spec_e(l, args, out);
@@ -1688,7 +1927,7 @@ pub fn gen_program(p: &mut Prng) -> Program {
     let o = GenOpts { exotic: false, host: true };
     let n = 1 + p.below(4) as usize;
     let env = gen_env(p, n, &o);
-    let mut g = Gen { p, env, vars: vec![], helpers: vec![], kinds: Default::default(), fresh: 0, closed: false, closed_args: false };
+    let mut g = Gen { p, env, vars: vec![], helpers: vec![], kinds: Default::default(), fresh: 0, closed: false, closed_args: false, in_for: false };
     for d in &g.env.decls {
         match d.nparams() {
             1 => {
@@ -1881,16 +2120,368 @@ fn rep_env() -> (Env, Vec<T>) {
 }
 
 pub fn n_reps() -> u64 {
-    2 * rep_env().1.len() as u64
+    n_order_reps() + 2 * rep_env().1.len() as u64
 }
 
-/// representative `idx` of the battery: independent of the seed of the run
+// ---- evaluation order inside constructors: constructor kind x earlier component x later write
+
+/// the constructor kinds whose components are evaluated one after the other
+const CTORS: [&str; 10] = [
+    "record",          // W { first: <early>, second: { <write>; n } }
+    "record-reversed", // X { b: <early>, a: { <write>; n } }  (declared a, b)
+    "anonymous",       // { first: <early>, second: { <write>; n } }
+    "anonymous-as-named", // let w: W = { first: <early>, second: { <write>; n } }
+    "enum",            // VV.A(<early>, { <write>; n })
+    "list",            // [<early>, { <write>; <early> }]
+    "call",            // first_k(<early>, { <write>; n })
+    "host-call",       // first_u32(<early>, { <write>; n })
+    "eq",              // <early> == { <write>; <early> }
+    "record-three",    // W3 { a: <early>, b: { <write>; n }, c: <early> }
+];
+
+/// the kinds of earlier component (what the later write could reach)
+const EARLY: [&str; 16] = [
+    "variable-u32", "variable-i64", "variable-u8", "field", "nested-field", "literal", "whole-record",
+    "sub-record", "string", "string-field", "option", "enum", "list", "host-clone", "anonymous-field", "list-field",
+];
+
+pub fn n_order_reps() -> u64 {
+    (CTORS.len() * EARLY.len()) as u64
+}
+
+/// declarations of the evaluation-order representatives; `t` = type of the earlier component
+fn order_env(t: &T) -> Env {
+    let u = |b: u8| T::Int(false, b);
+    let f = |n: &str, t: T| (n.to_string(), t);
+    Env {
+        decls: vec![
+            Decl::Record { name: "P".into(), generic: 0, fields: vec![f("x", u(32)), f("y", u(8))] },
+            Decl::Record { name: "N".into(), generic: 0, fields: vec![f("p", T::Named(0, vec![])), f("k", u(16)), f("s", T::Str)] },
+            Decl::Enum { name: "V0".into(), generic: 0, variants: vec![("A".into(), vec![u(32), u(8)]), ("B".into(), vec![])] },
+            Decl::Record { name: "LR".into(), generic: 0, fields: vec![f("l", T::List(Box::new(u(32)))), f("k", u(8))] },
+            // 4..: the constructors under test
+            Decl::Record { name: "W".into(), generic: 0, fields: vec![f("first", t.clone()), f("second", u(8))] },
+            Decl::Record { name: "X".into(), generic: 0, fields: vec![f("a", u(8)), f("b", t.clone())] },
+            Decl::Enum { name: "VV".into(), generic: 0, variants: vec![("A".into(), vec![t.clone(), u(8)]), ("B".into(), vec![])] },
+            Decl::Record { name: "W3".into(), generic: 0, fields: vec![f("a", t.clone()), f("b", u(8)), f("c", t.clone())] },
+        ],
+    }
+}
+
+fn early_type(ek: usize) -> T {
+    let u = |b: u8| T::Int(false, b);
+    match EARLY[ek] {
+        "variable-u32" | "field" | "nested-field" | "literal" | "anonymous-field" => u(32),
+        "variable-i64" => T::Int(true, 64),
+        "variable-u8" => u(8),
+        "whole-record" | "sub-record" => T::Named(0, vec![]),
+        "string" | "string-field" => T::Str,
+        "option" => T::Opt(Box::new(u(32))),
+        "enum" => T::Named(2, vec![]),
+        "list" | "list-field" => T::List(Box::new(u(32))),
+        "host-clone" => T::Host("Big"),
+        other => unreachable!("{other}"),
+    }
+}
+
+/// one group of an evaluation-order representative: fresh variables, the
+/// earlier component's expression, the root variable the later write goes
+/// to, and the `m`-th write of this kind (`None` when there is no `m`-th)
+fn early_group(g: &mut Gen, ek: usize, m: usize, out: &mut Vec<S>) -> Option<(E, usize, S)> {
+    let u = |b: u8| T::Int(false, b);
+    let pt = T::Named(0, vec![]);
+    let nt = T::Named(1, vec![]);
+    let fld = |k: usize, n: &str| (k, n.to_string());
+    let mk_p = |x: E, y: E| E::Rec(Some("P".into()), vec![("x".into(), x), ("y".into(), y)]);
+    let mk_n = |p: E, k: E, s: &str| E::Rec(Some("N".into()), vec![("p".into(), p), ("k".into(), k), ("s".into(), E::Str(s.into()))]);
+    let kind = EARLY[ek];
+    // (declare lazily: only when the m-th write exists)
+    macro_rules! pick {
+        ($ws:expr) => {{
+            let mut ws: Vec<S> = $ws;
+            if m >= ws.len() {
+                return None;
+            }
+            ws.swap_remove(m)
+        }};
+    }
+    let nwrites = match kind {
+        "variable-u32" | "field" | "whole-record" | "string-field" | "list-field" => 3,
+        "nested-field" | "sub-record" => 4,
+        "enum" | "host-clone" => 1,
+        _ => 2,
+    };
+    if m >= nwrites {
+        return None;
+    }
+    let let_ = |g: &mut Gen, t: T, e: E, out: &mut Vec<S>| -> usize {
+        let ann = t.src(&g.env);
+        let v = g.new_var(t, None);
+        out.push(S::Let(v, Some(ann), e));
+        v
+    };
+    Some(match kind {
+        "variable-u32" | "literal" => {
+            let n = let_(g, u(32), E::Arg(2), out);
+            let w = pick!(vec![
+                S::Set(n, vec![], E::Lit(9)),
+                S::CSet(n, vec![], '+', u(32), E::Lit(1)),
+                S::CSet(n, vec![], '*', u(32), E::Lit(3)),
+            ]);
+            (if kind == "literal" { E::Lit(7) } else { E::Var(n) }, n, w)
+        }
+        "variable-i64" => {
+            let n = let_(g, T::Int(true, 64), E::Arg(5), out);
+            let w = pick!(vec![S::Set(n, vec![], E::Lit(-4)), S::CSet(n, vec![], '-', T::Int(true, 64), E::Lit(1))]);
+            (E::Var(n), n, w)
+        }
+        "variable-u8" => {
+            let n = let_(g, u(8), E::Arg(0), out);
+            let w = pick!(vec![S::Set(n, vec![], E::Lit(200)), S::CSet(n, vec![], '+', u(8), E::Lit(100))]);
+            (E::Var(n), n, w)
+        }
+        "field" | "whole-record" => {
+            let p = let_(g, pt.clone(), mk_p(E::Arg(2), E::Arg(0)), out);
+            let w = pick!(vec![
+                S::Set(p, vec![], mk_p(E::Lit(50), E::Lit(60))),
+                S::Set(p, vec![fld(0, "x")], E::Lit(99)),
+                if kind == "field" {
+                    S::CSet(p, vec![fld(0, "x")], '+', u(32), E::Lit(1))
+                } else {
+                    S::CSet(p, vec![fld(1, "y")], '+', u(8), E::Lit(1))
+                },
+            ]);
+            let read = if kind == "field" { Gen::path_expr(p, &[fld(0, "x")]) } else { E::Var(p) };
+            (read, p, w)
+        }
+        "nested-field" | "sub-record" | "string-field" => {
+            let q = let_(g, nt.clone(), mk_n(mk_p(E::Arg(2), E::Arg(0)), E::Arg(1), "s"), out);
+            let other = mk_n(mk_p(E::Lit(50), E::Lit(60)), E::Lit(70), "other");
+            let w = match kind {
+                "nested-field" => pick!(vec![
+                    S::Set(q, vec![], other),
+                    S::Set(q, vec![fld(0, "p")], mk_p(E::Lit(51), E::Lit(61))),
+                    S::Set(q, vec![fld(0, "p"), fld(0, "x")], E::Lit(99)),
+                    S::CSet(q, vec![fld(0, "p"), fld(0, "x")], '*', u(32), E::Lit(2)),
+                ]),
+                "sub-record" => pick!(vec![
+                    S::Set(q, vec![], other),
+                    S::Set(q, vec![fld(0, "p")], mk_p(E::Lit(51), E::Lit(61))),
+                    S::Set(q, vec![fld(0, "p"), fld(0, "x")], E::Lit(99)),
+                    S::CSet(q, vec![fld(0, "p"), fld(1, "y")], '-', u(8), E::Lit(1)),
+                ]),
+                _ => pick!(vec![
+                    S::Set(q, vec![], other),
+                    S::Set(q, vec![fld(2, "s")], E::Str("new".into())),
+                    S::CSet(q, vec![fld(2, "s")], '+', T::Str, E::Str("y".into())),
+                ]),
+            };
+            let read = match kind {
+                "nested-field" => Gen::path_expr(q, &[fld(0, "p"), fld(0, "x")]),
+                "sub-record" => Gen::path_expr(q, &[fld(0, "p")]),
+                _ => Gen::path_expr(q, &[fld(2, "s")]),
+            };
+            (read, q, w)
+        }
+        "string" => {
+            let sv = let_(g, T::Str, E::Str("abc".into()), out);
+            let w = pick!(vec![S::Set(sv, vec![], E::Str("zz".into())), S::CSet(sv, vec![], '+', T::Str, E::Str("x".into()))]);
+            (E::Var(sv), sv, w)
+        }
+        "option" => {
+            let o = let_(g, T::Opt(Box::new(u(32))), E::Enm("Some".into(), 0, vec![E::Arg(2)]), out);
+            let w = pick!(vec![
+                S::Set(o, vec![], E::Enm("None".into(), 1, vec![])),
+                S::Set(o, vec![], E::Enm("Some".into(), 0, vec![E::Lit(1)])),
+            ]);
+            (E::Var(o), o, w)
+        }
+        "enum" => {
+            let e = let_(g, T::Named(2, vec![]), E::Enm("V0.A".into(), 0, vec![E::Arg(2), E::Lit(1)]), out);
+            (E::Var(e), e, S::Set(e, vec![], E::Enm("V0.B".into(), 1, vec![])))
+        }
+        "list" => {
+            let l = let_(g, T::List(Box::new(u(32))), E::Lst(vec![E::Arg(2)]), out);
+            // rebinding the name (the earlier component keeps the OLD storage) / a push (shared: seen)
+            let w = pick!(vec![S::Set(l, vec![], E::Lst(vec![E::Lit(9), E::Lit(9)])), S::Push(E::Var(l), E::Lit(5))]);
+            (E::Var(l), l, w)
+        }
+        "list-field" => {
+            let r = let_(
+                g,
+                T::Named(3, vec![]),
+                E::Rec(Some("LR".into()), vec![("l".into(), E::Lst(vec![E::Arg(2)])), ("k".into(), E::Arg(0))]),
+                out,
+            );
+            let w = pick!(vec![
+                S::Set(r, vec![fld(0, "l")], E::Lst(vec![E::Lit(1)])),
+                S::Push(Gen::path_expr(r, &[fld(0, "l")]), E::Lit(3)),
+                S::Set(r, vec![], E::Rec(Some("LR".into()), vec![("l".into(), E::Lst(vec![])), ("k".into(), E::Lit(2))])),
+            ]);
+            (Gen::path_expr(r, &[fld(0, "l")]), r, w)
+        }
+        "host-clone" => {
+            let b = let_(g, T::Host("Big"), E::Host("mk_big", Box::new(E::Arg(2))), out);
+            (E::Var(b), b, S::Set(b, vec![], E::Host("mk_big", Box::new(E::Lit(7)))))
+        }
+        "anonymous-field" => {
+            let fs = vec![("f".to_string(), u(32)), ("g".to_string(), u(8))];
+            let a = g.new_var(T::Unit, Some(fs));
+            out.push(S::Let(a, None, E::Rec(None, vec![("f".into(), E::Arg(2)), ("g".into(), E::Arg(0))])));
+            let w = pick!(vec![S::Set(a, vec![fld(0, "f")], E::Lit(5)), S::CSet(a, vec![fld(0, "f")], '+', u(32), E::Lit(1))]);
+            (Gen::path_expr(a, &[fld(0, "f")]), a, w)
+        }
+        other => unreachable!("{other}"),
+    })
+}
+
+/// evaluation-order representative `idx` = (constructor kind, earlier component kind): one
+/// group per kind of later write. `None`: the combination does not exist
+fn gen_order_rep(idx: u64) -> Option<Case> {
+    let ck = idx as usize / EARLY.len();
+    let ek = idx as usize % EARLY.len();
+    let ctor = CTORS[ck];
+    let t = early_type(ek);
+    match (ctor, EARLY[ek]) {
+        // the host functions of that shape take a u32 / a String
+        ("host-call", e) if !matches!(e, "variable-u32" | "field" | "nested-field" | "literal" | "anonymous-field" | "string" | "string-field") => {
+            return None
+        }
+        // no `==` on the registered type
+        ("eq", "host-clone") => return None,
+        _ => {}
+    }
+    let mut p = Prng::for_case(0xC02_07D3, idx);
+    let env = order_env(&t);
+    let mut g = Gen { p: &mut p, env, vars: vec![], helpers: vec![], kinds: Default::default(), fresh: 0, closed: false, closed_args: false, in_for: false };
+    let mut body = vec![];
+    let u8t = T::Int(false, 8);
+    for m in 0..4 {
+        let Some((read, root, write)) = early_group(&mut g, ek, m, &mut body) else { break };
+        let late = |x: E| E::Seq(vec![write.clone()], Box::new(x));
+        let n = E::Lit(1 + m as i128);
+        let (wt, anon, e): (T, Option<Vec<(String, T)>>, E) = match ctor {
+            "record" => (
+                T::Named(4, vec![]),
+                None,
+                E::RecO(Some("W".into()), vec![(0, "first".into(), read.clone()), (1, "second".into(), late(n))]),
+            ),
+            "record-reversed" => (
+                T::Named(5, vec![]),
+                None,
+                E::RecO(Some("X".into()), vec![(1, "b".into(), read.clone()), (0, "a".into(), late(n))]),
+            ),
+            "anonymous" => (
+                T::Unit,
+                Some(vec![("first".to_string(), t.clone()), ("second".to_string(), u8t.clone())]),
+                E::RecO(None, vec![(0, "first".into(), read.clone()), (1, "second".into(), late(n))]),
+            ),
+            "anonymous-as-named" => (
+                T::Named(4, vec![]),
+                None,
+                E::RecO(Some(String::new()), vec![(0, "first".into(), read.clone()), (1, "second".into(), late(n))]),
+            ),
+            "enum" => (T::Named(6, vec![]), None, E::Enm("VV.A".into(), 0, vec![read.clone(), late(n)])),
+            "list" => (T::List(Box::new(t.clone())), None, E::Lst(vec![read.clone(), late(read.clone())])),
+            "call" => {
+                let k = g.helpers.len();
+                let ts = t.src(&g.env);
+                g.helpers.push(format!("fn first_{k}(x: {ts}, y: u8) -> {ts} {{ x }}"));
+                (t.clone(), None, E::First(format!("first_{k}"), Box::new(read.clone()), Box::new(late(n))))
+            }
+            "host-call" => {
+                let f = if t == T::Str { "first_str" } else { "first_u32" };
+                (t.clone(), None, E::First(f.into(), Box::new(read.clone()), Box::new(late(n))))
+            }
+            "eq" => (T::Bool, None, E::Eq(m % 2 == 1, Box::new(read.clone()), Box::new(late(read.clone())))),
+            "record-three" => (
+                T::Named(7, vec![]),
+                None,
+                E::RecO(
+                    Some("W3".into()),
+                    vec![(0, "a".into(), read.clone()), (1, "b".into(), late(n)), (2, "c".into(), read.clone())],
+                ),
+            ),
+            other => unreachable!("{other}"),
+        };
+        let ann = if anon.is_some() { None } else { Some(wt.src(&g.env)) };
+        let w = g.new_var(wt, anon);
+        body.push(S::Let(w, ann, e));
+        body.extend(g.emit_var(w));
+        body.extend(g.emit_var(root));
+        g.kinds.insert(match &write {
+            S::Set(_, p, _) if p.is_empty() => "order-assign-var",
+            S::Set(..) => "order-assign-field",
+            S::CSet(..) => "order-compound-assign",
+            _ => "order-push",
+        });
+    }
+    let pr = Program { consts: vec![], env: g.env, helpers: g.helpers, body, kinds: g.kinds.into_iter().collect() };
+    let script = prune_decls(&pr);
+    let args: Vec<Args> = (0..3).map(|_| gen_args(&mut p)).collect();
+    let spec = args.iter().map(|a| spec(&pr, a)).collect::<Vec<_>>().join("\n");
+    Some(Case { script, spec, args, sig: format!("order-representative+ctor:{ctor}+early:{}+{}", EARLY[ek], pr.kinds.join("+")) })
+}
+
+/// the source of a program without the declarations nothing refers to (a
+/// representative should be as small as its class allows)
+fn prune_decls(pr: &Program) -> String {
+    let full = source(pr);
+    let all = decl_src(&pr.env);
+    let rest = full.strip_prefix(all.as_str()).unwrap_or(&full).to_string();
+    // (a declaration only refers to earlier ones: print prefixes and cut)
+    let mut each: Vec<String> = vec![];
+    let mut upto = String::new();
+    for i in 0..pr.env.decls.len() {
+        let next = decl_src(&Env { decls: pr.env.decls[..=i].to_vec() });
+        each.push(next[upto.len()..].to_string());
+        upto = next;
+    }
+    let words = |t: &str| -> std::collections::BTreeSet<String> {
+        t.split(|c: char| !(c.is_alphanumeric() || c == '_')).map(|w| w.to_string()).collect()
+    };
+    let mut keep = vec![false; each.len()];
+    let mut seen = words(&rest);
+    loop {
+        let mut changed = false;
+        for i in 0..each.len() {
+            if !keep[i] && seen.contains(pr.env.decls[i].name()) {
+                keep[i] = true;
+                changed = true;
+                // the body of the declaration (after its own name) refers to others
+                seen.extend(words(&each[i]));
+            }
+        }
+        if !changed {
+            break;
+        }
+    }
+    let mut out = String::new();
+    for i in 0..each.len() {
+        if keep[i] {
+            out += &each[i];
+        }
+    }
+    out + &rest
+}
+
+/// representative `idx` of the batteries: independent of the seed of the run.
+/// The evaluation-order representatives come first.
 pub fn gen_rep_case(idx: u64) -> Case {
+    if idx < n_order_reps() {
+        return gen_order_rep(idx).unwrap_or(Case {
+            script: "fn main(p0: u8, p1: u16, p2: u32, p3: u64, p4: i8, p5: i64, p6: bool) {\n}\n".into(),
+            spec: "0".into(),
+            args: vec![(0, 0, 0, 0, 0, 0, false)],
+            sig: "order-representative:not-applicable".into(),
+        });
+    }
+    let idx = idx - n_order_reps();
     let (env, ts) = rep_env();
     let t = ts[idx as usize % ts.len()].clone();
     let round = idx as usize / ts.len();
     let mut p = Prng::for_case(0xC02_4E95, idx);
-    let mut g = Gen { p: &mut p, env, vars: vec![], helpers: vec![], kinds: Default::default(), fresh: 0, closed: false, closed_args: false };
+    let mut g = Gen { p: &mut p, env, vars: vec![], helpers: vec![], kinds: Default::default(), fresh: 0, closed: false, closed_args: false, in_for: false };
     let mut body = vec![];
     // every variant of an enum-like type in turn (two per representative)
     g.repr_block(&t, Some(2 * round), &mut body);
